@@ -49,6 +49,24 @@ CFG = {
                    "SuccinctlyVerif/Proof/YamlKernels.lean", "SuccinctlyVerif/Model/YamlSimd.lean",
                    "SuccinctlyVerif/Spec/YamlKernels.lean"],
     "generated": [],
+    "required_theorems": [
+        "SV.Props.C16.find_quote_or_escape_kernel_eq_scalar", "SV.Props.C16.find_single_quote_kernel_eq_scalar",
+        "SV.Props.C16.find_newline_kernel_eq_scalar", "SV.Props.C16.count_leading_spaces_kernel_eq_scalar",
+        "SV.Props.C16.find_block_scalar_end_kernel_eq_scalar", "SV.Props.C16.find_block_scalar_end_eq_scalar",
+        "SV.Props.C16.parse_anchor_name_kernel_eq_scalar", "SV.Props.C16.parse_anchor_name_eq_scalar",
+        "SV.Props.C16.classify_yaml_chars_eq_spec", "SV.Props.C16.classify_sse2_is_low_half",
+        "SV.Props.C16.kernels_level_independent", "SV.Props.C16.clamp_total",
+    ],
+    "trusted_base": [
+        "C16: lane semantics of _mm{,256}_cmpeq_epi8 / _or_si* / _movemask_epi8, u32::trailing_zeros, `!mask`, "
+        "`mask &= mask - 1` as written in Model/YamlSimd.lean (cmpeq, por, movemask, ctz32, not32); str::trim / "
+        "to_ascii_lowercase as Spec/YamlKernels.normalise; the lane DAGs and chunk loops are hand-transcribed from "
+        "x86.rs (not generated) and tied to the code by the per-level correspondence only",
+        "C16 whole index: no model; three configurations of the implementation compared with each other "
+        "(a defect shared by all three dispatch levels is invisible to this comparison)",
+        "C16: util/simd/escape.rs kernels (contains_cr, find_json_escape; scalar under scalar-yaml, not clamped by "
+        "SUCCINCTLY_SIMD) are outside the kernel proof; they are exercised only through the whole-index comparison",
+    ],
     "allow_bv_decide": False,
     "nontrivial": _c16_nontrivial,
     "rule": "kernel request = one kernel invocation on all dispatch levels; distinct request lines whose buffer is "
